@@ -932,7 +932,12 @@ type _structAssemblerRepr _structAssembler
 func (w *_structAssemblerRepr) AssembleKey() datamodel.NodeAssembler {
 	switch stg := reprStrategy(w.schemaType).(type) {
 	case schema.StructRepresentation_Map:
-		return (*_structAssembler)(w).AssembleKey()
+		asm := (*_structAssembler)(w).AssembleKey()
+		// Keys arrive in their representation form here.
+		w.curKey.finish = func() error {
+			return (*_structAssembler)(w).checkKey(inboundMappedKey(w.schemaType, stg, w.curKey.val.String()))
+		}
+		return asm
 	case schema.StructRepresentation_Stringjoin,
 		schema.StructRepresentation_StringPairs:
 		// TODO: perhaps the ErrorWrongKind type should also be extended to explicitly describe whether the method was applied on bare DM, type-level, or repr-level.
@@ -974,6 +979,9 @@ func (w *_structAssemblerRepr) AssembleEntry(k string) (datamodel.NodeAssembler,
 		return nil, err
 	}
 	am := w.AssembleValue()
+	if am, ok := am.(_errorAssembler); ok {
+		return nil, am.err
+	}
 	return am, nil
 }
 
